@@ -413,7 +413,73 @@ def rule_table(P):
     return r
 
 
+def rule_abort_batch(P):
+    """deleting a signal event from inside its callback stops the remaining invocations of the batch: event_del_nolock_ evaluated for a signal event in every
+    combination of list flags must zero the batch counter the running closure reads (*ev->ev_pncalls)"""
+    from ..prog import PRef
+    r = Rule("C07-abort-batch", "K6", "event_del on a signal event whose callback batch is running zeroes *ev_pncalls, whatever queues the event is in", floor=8)
+    f = P.fn("event_del_nolock_")
+    ev = ["var", f.params[0][0], "param"]
+    E = {}
+    for g in P.fns_in("event.c"):
+        for x in [el.e for el in g.elems()] + [b.term["cond"] for b in g.branch_blocks()]:
+            for q in walk(x):
+                if is_e(q, "int") and len(q) > 2 and isinstance(q[2], str) and (q[2].startswith("EVLIST_") or q[2].startswith("EV_")):
+                    E.setdefault(q[2], q[1])
+    need = ("EVLIST_INIT", "EVLIST_INSERTED", "EVLIST_ACTIVE", "EVLIST_TIMEOUT", "EVLIST_ACTIVE_LATER", "EV_SIGNAL", "EV_PERSIST")
+    if any(n not in E for n in need):
+        r.brk("flag constants not found: %s" % [n for n in need if n not in E])
+        return r
+    kflags = None
+    kevents = nkey(["fld", ev, "event.ev_events", "->"])
+    # spelling of ev_flags / ev_ncalls / ev_pncalls as the function reads them
+    keys = {}
+    for x in [el.e for el in f.elems()] + [b.term["cond"] for b in f.branch_blocks()]:
+        for q in walk(x):
+            if is_e(q, "fld"):
+                for nm in ("evcb_flags", "ev_ncalls", "ev_pncalls", "ev_base"):
+                    if q[2].endswith(nm) and root_var(q) is not None and root_var(q)[1] == ev[1]:
+                        keys[nm] = nkey(q)
+    if any(n not in keys for n in ("evcb_flags", "ev_ncalls", "ev_pncalls", "ev_base")):
+        r.brk("event_del_nolock_ does not read %s" % [n for n in ("evcb_flags", "ev_ncalls", "ev_pncalls", "ev_base") if n not in keys])
+        return r
+    INIT = E["EVLIST_INIT"]
+    for extra in (0, E["EVLIST_INSERTED"], E["EVLIST_ACTIVE"], E["EVLIST_INSERTED"] | E["EVLIST_ACTIVE"], E["EVLIST_TIMEOUT"], E["EVLIST_ACTIVE_LATER"], E["EVLIST_INSERTED"] | E["EVLIST_TIMEOUT"]):
+        for persist in (0, E["EV_PERSIST"]):
+            for blocking in (0, 1, 2):
+                env = {"#typed": 1, ev[1]: 1, f.params[1][0]: blocking, keys["evcb_flags"]: INIT | extra, kevents: E["EV_SIGNAL"] | persist, keys["ev_ncalls"]: 3,
+                       keys["ev_pncalls"]: PRef(None, "#batch"), "#batch": 2, keys["ev_base"]: 9, "base": 9, "event_debug_logging_mask_": 0, "event_debug_mode_on_": 0}
+                def hook(el, e_):
+                    n = callee_name(el.e)
+                    if n in ("event_queue_remove_timeout", "event_queue_remove_active", "event_queue_remove_active_later", "event_queue_remove_inserted", "evthread_notify_base",
+                             "event_debug_note_del_", "evthread_is_debug_lock_held_"):
+                        return 0
+                    if n in ("evmap_io_del_", "evmap_signal_del_"):
+                        return 0
+                    if n in ("min_heap_top_", "event_haveevents"):
+                        return 1
+                    return None
+                outs = [o for o in run_all(f, (f.entry, 0), env, lambda el: False, P, hook, max_steps=500) if not (o.kind == "exit" and o.why == "noreturn")]
+                for o in outs:
+                    if o.kind == "unknown":
+                        r.brk("event_del_nolock_: %s" % o.why)
+                        return r
+                    left = o.env.get("#batch")
+                    r.inst((extra, persist, blocking, left), {"list_flags": hex(INIT | extra), "persist": bool(persist), "blocking": blocking, "batch_counter_after": left})
+                    if left != 0:
+                        r.bad("K6:event_del_nolock_:signal-batch-not-aborted", "%s:%d" % (f.file, f.line), f.name,
+                              "signal event with list flags %#x%s deleted while its callback batch runs (ncalls 3, 2 invocations left): *ev_pncalls stays %s — the callback runs again after event_del/event_free" % (
+                                  INIT | extra, " (one-shot: it is in no queue during its callback)" if not persist and not extra else "", left))
+    seen, uniq = set(), []
+    for f_ in r.findings:
+        if f_.key not in seen:
+            seen.add(f_.key)
+            uniq.append(f_)
+    r.findings = uniq
+    return r
+
+
 def run(ctx, config):
     P = ctx.prog(UNITS, config)
     Pall = ctx.prog(None, config)
-    return [rule_who(Pall), rule_saverestore(P), rule_del(P), rule_map(P), rule_counts(P), rule_target(P), rule_table(P)]
+    return [rule_who(Pall), rule_saverestore(P), rule_del(P), rule_map(P), rule_counts(P), rule_target(P), rule_table(P), rule_abort_batch(P)]
